@@ -146,12 +146,17 @@ class Integrator(object):
     def compute_h_minimum(self):
         a_eval = self.acceleration_evals[0]
 
-        hmin = 1.0
+        hmin = np.inf
         for pa in a_eval.particle_arrays:
+            if pa.get_number_of_particles() == 0:
+                continue
+            # The cached minimum is only valid after it is updated.
             if pa.gpu:
                 h = pa.gpu.get_device_array('h')
+                pa.gpu.update_minmax_cl(['h'], only_min=True)
             else:
                 h = pa.get_carray('h')
+                h.update_min_max()
 
             if h.minimum < hmin:
                 hmin = h.minimum
